@@ -107,6 +107,11 @@ def from_json(v, st, origin='local', name=''):
             return Ref(oid)
         if 'fnref' in v:
             return FuncV(v['fnref'])
+        if 'o' in v:
+            oid = st.new_oid('J')
+            st.heap[oid] = RecObj(v['o']['cls'], {k: from_json(x, st, origin, name) for k, x in v['o']['fields'].items()},
+                                  origin=origin, name=name)
+            return Ref(oid)
         if 'repr' in v:
             return {'__repr__': v['repr']}
     raise Unsupported('cannot import native value %r' % (v,))
